@@ -326,6 +326,7 @@ nice_component_close (NiceAgent *agent, NiceStream *stream, NiceComponent *cmp)
   IOCallbackData *data;
   GOutputVector *vec;
   IncomingCheck *c;
+  GSList *item;
 
   /* Start closing the pseudo-TCP socket first. FIXME: There is a very big and
    * reliably triggerable race here. pseudo_tcp_socket_close() does not block
@@ -359,6 +360,16 @@ nice_component_close (NiceAgent *agent, NiceStream *stream, NiceComponent *cmp)
   g_slist_free_full (cmp->remote_candidates,
       (GDestroyNotify) nice_candidate_free);
   cmp->remote_candidates = NULL;
+
+  /* Candidate refreshes that were already being disposed of when the stream
+   * got removed (nice_agent_forget_relays() just before) still have their
+   * deallocation timers pending on these sockets: drop them with the sockets.
+   */
+  for (item = cmp->socket_sources; item; item = item->next) {
+    SocketSource *source = item->data;
+
+    refresh_prune_socket (agent, source->socket);
+  }
   nice_component_free_socket_sources (cmp);
 
   while ((c = g_queue_pop_head (&cmp->incoming_checks)))
